@@ -349,13 +349,21 @@ pub fn finish_chunk(w: W, pad: usize, rng: &mut Rng) -> ChunkBuf {
 
 pub fn user_data_chunk(ud: &UserData) -> W {
     let mut w = W::new(0x2020);
-    let flags = (ud.text.is_some() as u32) | ((ud.color.is_some() as u32) << 1);
+    // A third of the records also set bit 2 ("has properties", newer format revisions) and carry an empty
+    // properties block after text and colour: a reader of the older revision ignores both the bit and the trailing
+    // bytes, a reader of the newer one finds zero property maps - either way text and colour are as flagged.
+    let props = (ud.text.as_ref().map_or(1, |t| t.len()) + ud.color.map_or(0, |c| c[0] as usize)) % 3 == 0;
+    let flags = (ud.text.is_some() as u32) | ((ud.color.is_some() as u32) << 1) | ((props as u32) << 2);
     w.u32(Kind::Flags, "ud_flags", flags);
     if let Some(t) = &ud.text {
         w.string("ud_text", t);
     }
     if let Some(c) = &ud.color {
         w.bytes(Kind::Value, "ud_color", c);
+    }
+    if props {
+        w.u32(Kind::Size, "ud_props_size", 8);
+        w.u32(Kind::Count, "ud_props_maps", 0);
     }
     w
 }
